@@ -829,6 +829,52 @@ def attached_play(spec, init, ops):
             out.append((float(t[2, 3]), float(g.height), float(g.radius), pure))
         return out
 
+    def check_laser(li, laser, prof, seen):
+        """all references to the laser taken here die with this frame"""
+        geom = laser.get_geometry()
+        who = 'laser %d holding %s(laser_length=%r, laser_radius=%r)' % (li, type(prof).__name__, prof.laser_length, prof.laser_radius)
+        for g in geom:
+            if id(g) in seen:
+                return 'segments-shared-between-lasers', '%s: a segment object is also listed by laser %d' % (who, seen[id(g)])
+            seen[id(g)] = li
+        if any(g.parent is not laser for g in geom):
+            return 'segments-not-children-of-their-laser', '%s: a segment of get_geometry() has another parent' % who
+        segs = segs_of(laser)
+        why = tiling_violation(segs, float(prof.laser_radius), float(prof.laser_length))
+        if why is None:
+            kids = [c for c in laser.children if isinstance(c, Cylinder)]
+            if len(kids) != len(segs):
+                why = 'the laser has %d cylinder children but get_geometry() lists %d' % (len(kids), len(segs))
+        if why is not None:
+            return 'segments-do-not-tile-current-profile', '%s: %s' % (who, why)
+        for g in geom:
+            m = g.material
+            if not isinstance(m, LaserMaterial):
+                return 'segment-material-not-LaserMaterial', '%s: a segment carries %s, so the laser no longer scatters' % (who, type(m).__name__)
+            if m.importance != laser.importance or m.integrator is not laser.integrator:
+                return 'segment-material-stale-settings', '%s: material importance %r / integrator differ from the laser (%r)' % (who, m.importance, laser.importance)
+        # a laser freshly built around a fresh profile with the same reported parameters
+        st_, fp = call(construct, type(prof).__name__, {p_: float(getattr(prof, p_)) for p_ in PARAMS[type(prof).__name__]})
+        if st_ == 'ok':
+            fl = configured(World(), fp)
+            fs_ = segs_of(fl)
+            if len(fs_) != len(segs) or any(not close(list(x[:3]), list(y[:3]), 1e-13, 0.0) for x, y in zip(sorted(segs), sorted(fs_))):
+                return 'segments-differ-from-fresh-laser', '%s: %d segments, a freshly built laser has %d' % (who, len(segs), len(fs_))
+            if sorted(type(g.material).__name__ for g in geom) != sorted(type(g.material).__name__ for g in fl.get_geometry()):
+                return 'segment-material-not-LaserMaterial', '%s: material kinds differ from a freshly built laser' % who
+        return None
+
+    def drop(lasers, li):
+        """discard a laser: out of the scene graph, no reference left, collected"""
+        la = lasers[li]
+        if la is None:
+            return
+        la.parent = None
+        lasers[li] = None
+        del la
+        gc.collect()
+
+    import gc
     world = World()
     profs = [construct(c, a) for c, a in spec]
     cur = list(init)
@@ -836,46 +882,23 @@ def attached_play(spec, init, ops):
     for k, op in enumerate([None] + list(ops)):
         if op is not None:
             if op[0] == 'attach':
-                lasers[op[1]].laser_profile = profs[op[2]]
-                cur[op[1]] = op[2]
+                if lasers[op[1]] is not None:
+                    lasers[op[1]].laser_profile = profs[op[2]]
+                    cur[op[1]] = op[2]
             elif op[0] == 'importance':
-                lasers[op[1]].importance = op[2]
+                if lasers[op[1]] is not None:
+                    lasers[op[1]].importance = op[2]
+            elif op[0] == 'drop':
+                drop(lasers, op[1])
             else:
                 call(setattr, profs[op[1]], op[2], op[3])
         seen = {}
-        for li, laser in enumerate(lasers):
-            prof = profs[cur[li]]
-            geom = laser.get_geometry()
-            who = 'laser %d holding %s(laser_length=%r, laser_radius=%r)' % (li, type(prof).__name__, prof.laser_length, prof.laser_radius)
-            for g in geom:
-                if id(g) in seen:
-                    return k - 1, 'segments-shared-between-lasers', '%s: a segment object is also listed by laser %d' % (who, seen[id(g)])
-                seen[id(g)] = li
-            if any(g.parent is not laser for g in geom):
-                return k - 1, 'segments-not-children-of-their-laser', '%s: a segment of get_geometry() has another parent' % who
-            segs = segs_of(laser)
-            why = tiling_violation(segs, float(prof.laser_radius), float(prof.laser_length))
-            if why is None:
-                kids = [c for c in laser.children if isinstance(c, Cylinder)]
-                if len(kids) != len(segs):
-                    why = 'the laser has %d cylinder children but get_geometry() lists %d' % (len(kids), len(segs))
-            if why is not None:
-                return k - 1, 'segments-do-not-tile-current-profile', '%s: %s' % (who, why)
-            for g in geom:
-                m = g.material
-                if not isinstance(m, LaserMaterial):
-                    return k - 1, 'segment-material-not-LaserMaterial', '%s: a segment carries %s, so the laser no longer scatters' % (who, type(m).__name__)
-                if m.importance != laser.importance or m.integrator is not laser.integrator:
-                    return k - 1, 'segment-material-stale-settings', '%s: material importance %r / integrator differ from the laser (%r)' % (who, m.importance, laser.importance)
-            # a laser freshly built around a fresh profile with the same reported parameters
-            st_, fp = call(construct, type(prof).__name__, {p_: float(getattr(prof, p_)) for p_ in PARAMS[type(prof).__name__]})
-            if st_ == 'ok':
-                fl = configured(World(), fp)
-                fs_ = segs_of(fl)
-                if len(fs_) != len(segs) or any(not close(list(x[:3]), list(y[:3]), 1e-13, 0.0) for x, y in zip(sorted(segs), sorted(fs_))):
-                    return k - 1, 'segments-differ-from-fresh-laser', '%s: %d segments, a freshly built laser has %d' % (who, len(segs), len(fs_))
-                if sorted(type(g.material).__name__ for g in geom) != sorted(type(g.material).__name__ for g in fl.get_geometry()):
-                    return k - 1, 'segment-material-not-LaserMaterial', '%s: material kinds differ from a freshly built laser' % who
+        for li in range(len(lasers)):
+            if lasers[li] is None:
+                continue
+            bad = check_laser(li, lasers[li], profs[cur[li]], seen)
+            if bad is not None:
+                return k - 1, bad[0], bad[1]
     return None
 
 
@@ -915,6 +938,9 @@ def attached_stream(ctx, st=None, record=None):
                 cur[op[1]] = op[2]
             elif op[0] == 'importance':
                 k_ = 'importance'
+            elif op[0] == 'drop':
+                k_ = 'drop-first-registered' if op[1] == 0 else 'drop'
+                cur[op[1]] = None
             else:
                 n_ = cur.count(op[1])
                 k_ = 'set(%s)%s' % ('geometry' if op[2] in ('laser_length', 'laser_radius') else op[2],
@@ -951,7 +977,7 @@ def attached_stream(ctx, st=None, record=None):
 
     def k_subs(spec, init, ops):
         # K: the subscription state machine of the model (Model/Laser.lean `attachAll`) against the notifiers
-        if st is None:
+        if st is None or any(o[0] == 'drop' for o in ops):
             return
         pairs, tab = subscription_table(spec, init, ops)
         st.add(['subs %d %s' % (len(spec), ' '.join('%d %d' % pr_ for pr_ in pairs))],
@@ -987,7 +1013,7 @@ def attached_stream(ctx, st=None, record=None):
               ('importance', 0)]
     # two lasers: initial (p0, p1 equal parameters) and (p0, p0 shared)
     alpha2 = [('attach', l, p_) for l in (0, 1) for p_ in (0, 1, 2)] + [('set', 0, 'laser_length'), ('set', 1, 'laser_length'),
-              ('set', 2, 'laser_length'), ('set', 0, 'laser_radius'), ('importance', 1)]
+              ('set', 2, 'laser_length'), ('set', 0, 'laser_radius'), ('importance', 1), ('drop', 0), ('drop', 1)]
 
     def concrete(spec, o):
         if o[0] == 'set':
@@ -1021,6 +1047,8 @@ def attached_stream(ctx, st=None, record=None):
                 ops.append(('attach', rng.randrange(nl), i))
             elif u < 0.5:
                 ops.append(('importance', rng.randrange(nl), rng.choice([0.0, 1.0, 3.0])))
+            elif u < 0.58 and nl > 1:
+                ops.append(('drop', rng.randrange(nl)))
             else:
                 pr = rng.choice(['laser_length', 'laser_length', 'laser_radius', 'laser_radius'] + PARAMS[spec[i][0]])
                 ops.append(('set', i, pr, gen_value(rng, spec[i][0], pr)))
@@ -1043,7 +1071,7 @@ def copies_stream(ctx, st, record):
     for cls in PROFILES + SPECTRA:
         props = list(PARAMS[cls]) + (['polarization'] if cls in PROFILES else [])
         for how, mk in makers:
-            for _ in range(ctx.n(4, 40)):
+            for _ in range(ctx.n(6, 40)):
                 args = specialise(rng, cls, gen_args(rng, cls))
                 pts = gen_points(rng, cls, args)
                 pol = [rng.uniform(-1, 1), rng.uniform(-1, 1), rng.uniform(0.1, 1)] if cls in PROFILES else None
@@ -1511,6 +1539,28 @@ def replay_one(ctx, rep, signature=None):
         bad = attached_play([tuple(x) for x in rep['spec']], tuple(rep.get('init', [0])), [tuple(o) for o in rep['ops']])
         if bad is not None:
             ctx.fail(signature or 'C18:Laser:attached->%s' % bad[1], bad[2], rep)
+    elif kind == 'copies':
+        import copy
+        import pickle
+        mk = {'copy': copy.copy, 'deepcopy': copy.deepcopy, 'pickle': lambda o_: pickle.loads(pickle.dumps(o_))}[rep['how']]
+        cls, pts = rep['cls'], [tuple(p_) for p_ in rep['points']]
+        a = construct(cls, rep['args'], rep.get('pol'))
+        for p_, v_ in rep.get('pre', []):
+            apply_op(a, cls, p_, v_)
+        objs = {'original': a, 'copy': mk(a)}
+        for who, p_, v_ in rep['ops']:
+            other = 'copy' if who == 'original' else 'original'
+            before = observe(objs[other], cls, pts)
+            apply_op(objs[who], cls, p_, v_)
+            d_ = same_obs(before, observe(objs[other], cls, pts), cls)
+            if d_ is not None:
+                ctx.fail(signature or 'C18:%s:%s:set(%s)@%s->%s-of-the-%s-changes' % (cls, rep['how'], p_, who, d_, other),
+                         'assigning %s = %r on the %s changed %s of the %s' % (p_, v_, who, d_, other), rep)
+        for nm, o_ in objs.items():
+            ob = observe(o_, cls, pts)
+            fs_, fresh = call(construct, cls, dict(ob['getters']), ob['pol'][0] if cls in PROFILES else None)
+            if fs_ == 'ok' and same_obs(ob, observe(fresh, cls, pts), cls) is not None:
+                ctx.fail(signature or 'C18:%s:%s->%s-differs-from-fresh' % (cls, rep['how'], nm), 'the %s differs from a fresh object' % nm, rep)
     elif kind == 'consumer':
         emission, expected, same = consumer_env()
         spec = construct(rep['cls'], rep['args'])
